@@ -179,10 +179,9 @@ def check_poll_protocol(ctx):
     ctx.ob("R04.1", f"{k}|pending-paths-found", len(cons) == 1 and bool(regs) and bool(pend), site, f"{len(cons)} consume, {len(regs)} register_stream_waker, {len(pend)} Pending sites", nontrivial=False)
     if len(cons) == 1 and regs and pend:
         cb = cons[0][0]
-        ve = [(b, util.variant_edges(body, b)) for b in body.reachable]
         none_t = None
-        for (b, v) in ve:
-            if v and v[0] == cons[0][1]["dst"]["l"]: none_t = v[1].get(0)
+        for (tb, has_t, empty_t) in util.option_test_edges(body, dg, cons[0][1]["dst"]["l"]):
+            none_t = empty_t
         for p in pend:
             ok = any(body.dominates(rb, p) for (rb, _) in regs)
             ctx.ob("R04.1", f"{k}|pending-only-after-registration", ok, body.loc(p), "Poll::Pending is produced only on paths that registered the task's waker first")
